@@ -37,8 +37,9 @@ var c19Perturbs = []string{
 func genC19(t *rapid.T, tier string) C19Case {
 	c := C19Case{Cfg: core.GenConfig(t, tier, core.GenOpts{
 		Caches: []string{"none", "none", "big"}, Marshalers: []string{"json"},
-		Vals:     []string{core.VInt, core.VString, core.VBytes, core.VLong},
-		BigOneIn: 12,
+		Vals:       []string{core.VInt, core.VString, core.VBytes, core.VLong},
+		BigOneIn:   12,
+		NoReversed: true, // the perturbed comparators of this check are built from the default order
 	})}
 	pool := len(c.Cfg.Pool())
 	c.Base = append(core.GenFillCfg(t, c.Cfg, pool), core.GenProgram(t, core.WithBulk(pairBaseWeights, c.Cfg), 10, 1)...)
